@@ -100,6 +100,7 @@ func runC13(env *lib.Env, rep *lib.Report) {
 		{"select", "t1x8", []string{"select"}, 2, 0, false, false, false},
 		{"create", "t1x8", []string{"create"}, 2, 0, false, false, false},
 		{"insert1;delete;select", "t1x8", []string{"insert1", "delete", "select"}, 1, 0, false, false, false},
+		{"insert1;create;insert1/1", "t1x8", []string{"insert1", "create", "insert1"}, 1, 0, false, false, false},
 		// a page cache too small for the statement's dirty set: the statement must be refused (or fit), never
 		// make room by writing pages in the middle of the statement
 		{"insert9/cache3", "t1x8", []string{"insert9"}, 1, 3, false, false, false},
